@@ -76,6 +76,11 @@ func gen(r *rand.Rand, idx int, tier string) Input {
 	} else {
 		span = 1024*w + 1 + r.Int63n(3000*w)
 	}
+	// (not for 10^6 s buckets: such a range would exceed 292 years, where Go's time.Duration saturates)
+	topOfBand := idx%10 == 3 && L <= 4
+	if topOfBand { // the longest ranges that still get this bucket size: more than 10000 and at most 10240 entries
+		span = 10000*w + 1 + r.Int63n(240*w)
+	}
 	// anchor: a boundary of the year-1 grid of level >= L
 	base := stor.Boundary(r, L+r.Intn(2))
 	startSlot := (base+stor.UnixOffset)/10 - w*int64(r.Intn(3))
@@ -113,6 +118,9 @@ func gen(r *rand.Rand, idx int, tier string) Input {
 		default: // clustered near the start / a bucket edge
 			pf = from + (r.Int63n(3*w+25))*10
 		}
+		if topOfBand && r.Intn(2) == 0 { // in the last 240 buckets of the range
+			pf = until - (1+r.Int63n(240*w))*10
+		}
 		if pf < lo {
 			pf = lo + r.Int63n(1000)*10
 			pf = pf / 10 * 10
@@ -124,18 +132,21 @@ func gen(r *rand.Rand, idx int, tier string) Input {
 		// make sure all data stays within one 10^9 s block around the base
 		in.Ops = append(in.Ops, stor.Op{Kind: "put", Name: s.RandName(r), From: pf, Until: pf + sp*10,
 			Stacks: stor.EvenStacks(r, 1+r.Intn(3), sp, even), Spy: "gospy", Rate: 100, Units: "samples", Agg: agg})
+		if r.Intn(5) == 0 { // the same upload once more, byte for byte (two idle processes of one service; a retry)
+			in.Ops = append(in.Ops, in.Ops[len(in.Ops)-1])
+		}
 		if r.Intn(3) == 0 { // a second upload of the same series into the same slot (a node with two writes)
 			in.Ops = append(in.Ops, stor.Op{Kind: "put", Name: s.RandName(r), From: pf, Until: pf + sp*10,
 				Stacks: stor.EvenStacks(r, 1+r.Intn(2), sp, even), Spy: "gospy", Rate: 100, Units: "samples", Agg: agg})
 		}
-		if r.Intn(6) == 0 {
+		if r.Intn(6) == 0 && !topOfBand { // (the longest ranges are asked once, at the end: 10,000+ entries each)
 			in.Ops = append(in.Ops, stor.Op{Kind: "get", Name: stor.RandSelector(r, series).RandName(r), From: from, Until: until})
 		}
 	}
 	// a window whose end is not a multiple of 10 s, with a series whose very first profile lies in that last, partial
 	// slot next to an older series that has data there too (the last entry sums both)
 	lateUntil := int64(0)
-	if r.Intn(4) == 0 {
+	if r.Intn(4) == 0 && !topOfBand {
 		lateUntil = until/10*10 + 1 + r.Int63n(9)
 		last := lateUntil / 10 * 10
 		if last > lo && last < hi {
@@ -161,7 +172,7 @@ func gen(r *rand.Rand, idx int, tier string) Input {
 		}
 	}
 	in.Ops = append(in.Ops, stor.Op{Kind: "get", Name: app + "{}", From: from, Until: until})
-	if r.Intn(2) == 0 {
+	if r.Intn(2) == 0 && !topOfBand {
 		in.Ops = append(in.Ops, stor.Op{Kind: "get", Name: stor.RandSelector(r, series).RandName(r), From: from + r.Int63n(10), Until: until + r.Int63n(10)})
 	}
 	// a short 10 s-bucket query around the first put as well
